@@ -231,6 +231,38 @@ pub fn o_disc(a: &Analysis) -> Vec<Violation> {
             }
         }
     }
+    // a receive must not report an error while a value accepted before it began is still in the channel:
+    // "receivers still obtain every previously accepted value and only then get the error"
+    if cb.is_none() && a.d.case.class.has_id() {
+        let tracks = a.d.case.class.tracks_drop();
+        for s in a.sends.iter() {
+            if s.status != SendStatus::Ok || a.recv_by_id.contains_key(&s.id) {
+                continue;
+            }
+            // the value was never received by anybody; was it consumed by a cancelled receive future?
+            let consumed_by_cancel = if tracks {
+                a.d.entries.get(s.id as usize).and_then(|e| e.drops.first()).map_or(false, |dr| a.drop_where(dr).0 == DropWhere::RecvCancel)
+            } else {
+                !a.cancelled_recvs.is_empty()
+            };
+            if consumed_by_cancel {
+                continue;
+            }
+            for r in a.d.recs.iter() {
+                let err = matches!(r.res, Res::RecvErr(E::Closed | E::SendClosed) | Res::StreamEnd);
+                if err && r.op.is_recv_like() && r.inv > s.ret && !matches!(r.op, Op::FutRecv { .. } | Op::FutPoll { .. }) {
+                    out.push(v(
+                        format!("disc/error-before-drained@{}", r.op.kind()),
+                        format!(
+                            "{:?} reported {:?} although id {} had been accepted by {} before the receive began and was never obtained by anyone",
+                            r.op, r.res, s.id, s.kind
+                        ),
+                    ));
+                    return out;
+                }
+            }
+        }
+    }
     // once a receive has reported the send-side disconnect no later receive obtains a value
     let first_sc = a.d.recs.iter().filter(|r| r.res == Res::RecvErr(E::SendClosed)).map(|r| r.ret).min();
     if let Some(e) = first_sc {
